@@ -191,11 +191,15 @@ func rulesC02(c *Ctx) {
 		es := HeldEdges(fn, `\.value == nil$`)
 		cut, _ := successCut(dr)
 		cut.AddEdges(es...)
+		// a key longer than the maximum key length cannot have been inserted (Insert rejects it, C16.keylen)
+		if maxLen, ok := c.ConstInt("storage/mkvs/node", "MaxKeyLength"); ok {
+			cut.AddEdges(HeldEdges(fn, `^builtin\.len\(param:key\) > `+itoa(int(maxLen))+`$`)...)
+		}
 		for _, r := range Returns(fn) {
 			cut.AddEdges(phiNonNilEdges(r)...)
 		}
 		hit := Reach(fn, nil, nil, anyOf(SuccessReturns(fn)), cut)
-		c.Check(!dr.Empty() && hit == nil, "C02.mutate", fname(fn)+":success⇒doRemove✓∨already-removed", c.P.Pos(fn.Pos()), "a removal either performs the structural update or the key is already removed in this batch (pending value == nil)", "RemoveExisting can succeed without the structural update on a path other than 'pending entry has a nil value'")
+		c.Check(!dr.Empty() && hit == nil, "C02.mutate", fname(fn)+":success⇒doRemove✓∨already-removed", c.P.Pos(fn.Pos()), "a removal either performs the structural update, or the key is already removed in this batch (pending value == nil), or the key is longer than any key that can have been inserted", "RemoveExisting can succeed without the structural update on a path other than 'pending entry has a nil value' / 'key longer than MaxKeyLength'")
 	}
 	// removal marker is nil, not empty
 	nilMarkerRule(c, "C02.mutate")
